@@ -138,8 +138,14 @@ static int line_to_instr(struct instr *instr_data, char *filtered_asm_str) {
   }
   // special case for push instruction with immediate
   // (used push imm16 or imm32 when immediate is greater than 0x7f)
-  if (NAME(instr_data->key, push) && instr_data->cons > MAX_SIGNED_8BIT)
+  // (a negative immediate is sign extended from 8 or from 32 bits)
+  if (NAME(instr_data->key, push) && instr_data->cons > MAX_SIGNED_8BIT &&
+      instr_data->cons < NEG80BIT) {
     instr_data->key++;
+    if (IN_RANGE(instr_data->cons, NEG32BIT + 1, NEG64BIT) &&
+        (instr_data->cons & NEG32BIT_CHECK))
+      instr_data->cons &= MAX_UNSIGNED_32BIT;
+  }
   return EXIT_SUCCESS;
 }
 
